@@ -317,3 +317,56 @@ def resolve(n, table, depth=0):
         n = strip(table[n["hid"]])
         depth += 1
     return n
+
+
+# ---------------------------------------------------------------------------------------------
+# operand-order canonical form: `1 + j` and `j + 1`, `a == b` and `b == a`, `a > b` and `b < a` print the same
+
+_COMMUT = {"Add", "Mul", "Eq", "Ne", "And", "Or", "BitAnd", "BitOr", "BitXor"}
+_SWAP = {"Gt": "Lt", "Ge": "Le"}
+
+
+def canon(n):
+    """copy of the tree with operands of exactly-commutative operators sorted and > / >= turned into < / <="""
+    if isinstance(n, list):
+        return [canon(x) for x in n]
+    if not isinstance(n, dict):
+        return n
+    d = {k: canon(v) for k, v in n.items()}
+    if d.get("k") == "if" and d.get("el") is not None:
+        c_ = d["c"]
+        while c_ is not None and c_.get("k") == "blk" and not c_["b"]["stmts"] and c_["b"]["tail"] is not None:
+            c_ = c_["b"]["tail"]
+        while c_ is not None and c_.get("k") == "un" and c_.get("op") == "Not":
+            el = d["el"]
+            if el.get("k") == "blk" and not el["b"]["stmts"] and el["b"]["tail"] is not None and el["b"]["tail"].get("k") == "if":
+                el = el["b"]["tail"]          # `else { if .. }` prints like `else if ..`
+            d["c"], d["th"], d["el"] = c_["x"], el, d["th"]
+            c_ = d["c"]
+            while c_ is not None and c_.get("k") == "blk" and not c_["b"]["stmts"] and c_["b"]["tail"] is not None:
+                c_ = c_["b"]["tail"]
+    if d.get("k") == "match" and len(d.get("arms", [])) >= 2 and all(a.get("guard") is None for a in d["arms"]):
+        def vpath(p):
+            while p.get("k") in ("ref", "deref"):
+                p = p["p"]
+            return p.get("path") if p.get("k") in ("tstruct", "ppath", "struct") else None
+        arms, last = d["arms"], []
+        pl = arms[-1]["pat"]
+        while pl.get("k") in ("ref", "deref"):
+            pl = pl["p"]
+        if pl.get("k") == "wild":
+            arms, last = arms[:-1], arms[-1:]
+        paths = [vpath(a["pat"]) for a in arms]
+        if len(arms) >= 2 and all(paths) and len(set(paths)) == len(paths):
+            d["arms"] = [a for _, a in sorted(zip(paths, arms), key=lambda z: z[0])] + last
+    if d.get("k") == "bin":
+        if d["op"] in _SWAP:
+            d["op"] = _SWAP[d["op"]]
+            d["l"], d["r"] = d["r"], d["l"]
+        elif d["op"] in _COMMUT and pretty(d["r"]) < pretty(d["l"]):
+            d["l"], d["r"] = d["r"], d["l"]
+    return d
+
+
+def npretty(n):
+    return pretty(canon(n))
